@@ -11,6 +11,15 @@ transform: when it is told a value of a small to-be-corrected set it assigns
 a corrected value to the same property of the same transform from inside the
 callback (a clamp); every layout of that listener and of a passive one is
 crossed with every short sequence of assignments.
+
+Listener shapes (the statement says "each listener", whatever its class looks
+like): classes decorated with ``event_handler`` for every subset of the
+events; class hierarchies (a base class decorated for one event, a subclass -
+created after it - decorated for the other two, instances of both
+registered); probes of ONE class whose ``__events__`` is set per instance.
+Registration is part of the alphabet: ``add_handler`` of a listener that is
+already registered (still one listener) and ``remove_handler`` (no
+notification afterwards) - E1 layout "rereg" and E3 "registration-histories".
 """
 import collections
 import itertools
@@ -30,15 +39,35 @@ RULE = ('E1: breadth-first search over histories of assignments '
         'position / scale from two fresh Vec instances and one plain tuple; '
         'listener layouts: one listener per non-empty subset of the three '
         'events on each instance (4 listeners per event), the same with no '
-        'listener at all on the second instance, and a layout with '
-        'duplicate listeners and a listener registered on both instances.  '
-        'States are merged on (model, generic object graph of both '
-        'transforms); quick: depth 3; thorough: depth 4, and to fixpoint '
-        '(closes at depth 6) for the duplicate/shared layout.  E3 '
+        'listener at all on the second instance, a layout with '
+        'duplicate listeners and a listener registered on both instances, '
+        'a layout "class-shapes" (for each event: an instance of a base '
+        'class decorated for that event only, an instance of a subclass of '
+        'it that was created afterwards and decorated for the other two '
+        'events, and a probe of the ONE class Probe whose __events__ is an '
+        'instance attribute naming that event; a few of them on the second '
+        'instance, one probe on both) and a layout "rereg" where '
+        'add_handler (of any listener, registered or not, on either '
+        'transform) and remove_handler (of a registered one) are operations '
+        'next to the assignments (there: one value per property).  '
+        'States are merged on (model, registration model, generic object '
+        'graph of both transforms); quick: depth 3 (rereg: 4); thorough: '
+        'depth 4, and to fixpoint for the duplicate/shared layout (closes '
+        'at depth 6) and the rereg layout (depth 13).  E3 '
         '"listener-subsets": every ordered pair of subsets (empty = not '
         'registered) for two listeners on one transform x every single '
         'assignment, a second transform with a listener for all events '
-        'standing by.  E3 "constructor": every combination of '
+        'standing by.  E3 "listener-classes": the same with the two '
+        'listeners drawn from the nine class shapes of layout class-shapes '
+        '(or absent), every ordered pair.  E3 "registration-histories": '
+        'every sequence of 1..n operations (n = 4 quick, 5 thorough) that '
+        'ends with an assignment, over add_handler / remove_handler of two '
+        'listener objects (all events; a rotation probe) on two transforms '
+        'and one assignment per property and transform, nothing registered '
+        'at the start, NOT merged on states: after every assignment each '
+        'listener registered there (however many times add_handler was '
+        'called) is told once, a removed one nothing.  E3 "constructor": '
+        'every combination of '
         '(position, rotation, scale) drawn from the same sets or omitted, '
         'positional and keyword.  E3 "reentrant": one correcting listener '
         'registered for every non-empty subset of the three events x one '
@@ -66,6 +95,9 @@ ROTATIONS = (-370, -10, 0, 10, 359.5, 360, 370, 725.5)
 VECTORS = {2: ((0, 0), (1.5, -2), (3, 4)),
            3: ((0, 0, 0), (1.5, -2, 7), (3, 4, 5))}
 PLAIN_TUPLE = 2                  # index of the vector passed as plain tuple
+# value indices offered where registration is part of the alphabet: one value
+# per property (a Vec, rotation 370, a plain tuple)
+REREG_MENU = {'position': (1,), 'rotation': (6,), 'scale': (2,)}
 DEFAULTS = {2: dict(position=(0, 0), rotation=0, scale=(1, 1)),
             3: dict(position=(0, 0, 0), rotation=(0, 0, 0),
                     scale=(1, 1, 1))}
@@ -112,6 +144,74 @@ def _listener_class(bits):
 
 
 LISTENER = {bits: _listener_class(bits) for bits in range(1, 8)}
+
+
+# -- listener class hierarchies and per-instance subscriptions ---------------
+# A listener "kind" is an int (bits: the decorated class above) or a string:
+#   hb<i>  instance of a base class decorated for EVENTS[i] only
+#   hs<i>  instance of a subclass of that base, decorated (after the base was
+#          created) for the other two events: it listens to all three
+#          (event_handler composes inherited and new events)
+#   p<i>   instance of the one class Probe whose __events__ is an INSTANCE
+#          attribute {EVENTS[i]: 'record'}
+def _hierarchy_classes():
+    classes = {}
+    for i in range(3):
+        base = type(f'HierBase{i}', (BaseListener,),
+                    {'__module__': __name__, 'events': frozenset([EVENTS[i]])})
+        classes[f'hb{i}'] = desper.event_handler(EVENTS[i])(base)
+    for i in range(3):          # every subclass is created after every base
+        others = [e for e in EVENTS if e != EVENTS[i]]
+        sub = type(f'HierSub{i}', (classes[f'hb{i}'],),
+                   {'__module__': __name__, 'events': frozenset(EVENTS)})
+        classes[f'hs{i}'] = desper.event_handler(*others)(sub)
+    return classes
+
+
+HIERARCHY = _hierarchy_classes()
+
+
+class Probe(BaseListener):
+    """Generic listener: the observed event is chosen per instance (the
+    EventHandler protocol only asks for a field ``__events__``).  The one
+    callback logs the event the probe was made for, so a call through any
+    other event shows as a call for a foreign event."""
+
+    def __init__(self, label, log, event):
+        super().__init__(label, log)
+        self.event = event
+        self.__events__ = {event: 'record'}
+
+    def record(self, *args, **kwargs):
+        self.log.append((self.label, self.event, args, kwargs))
+
+
+CLASS_KINDS = tuple(f'{k}{i}' for k in ('hb', 'hs', 'p') for i in range(3))
+
+
+def events_of(kind):
+    """The events a listener of this kind is subscribed to."""
+    if isinstance(kind, int):
+        return LISTENER[kind].events
+    if kind in HIERARCHY:
+        return HIERARCHY[kind].events
+    if kind in CLASS_KINDS:
+        return frozenset([EVENTS[int(kind[1:])]])
+    raise ValueError(f'unknown listener kind {kind!r}')
+
+
+def make_listener(kind, label, log):
+    if isinstance(kind, int):
+        return LISTENER[kind](label, log)
+    if kind in HIERARCHY:
+        return HIERARCHY[kind](label, log)
+    if kind in CLASS_KINDS:
+        return Probe(label, log, EVENTS[int(kind[1:])])
+    raise ValueError(f'unknown listener kind {kind!r}')
+
+
+def kind_text(kind):
+    return f'{kind:03b}' if isinstance(kind, int) else kind
 
 
 # -- re-entrant (correcting) listeners ---------------------------------------
@@ -200,6 +300,17 @@ def layout_listeners(layout):
         out += [('L0.all-a', 7, (0,)), ('L0.all-b', 7, (0,)),
                 ('L1.all', 7, (1,)), ('Lshared.all', 7, (0, 1)),
                 ('L1.rot', 2, (1,))]
+    elif layout == 'class-shapes':
+        for i in range(3):
+            out += [(f'L0.base{i}', f'hb{i}', (0,)),
+                    (f'L0.sub{i}', f'hs{i}', (0,)),
+                    (f'L0.probe{i}', f'p{i}', (0,))]
+        out += [('L1.base2', 'hb2', (1,)), ('L1.sub0', 'hs0', (1,)),
+                ('L1.probe1', 'p1', (1,)), ('Lshared.probe0', 'p0', (0, 1))]
+    elif layout == 'rereg':
+        # initial registration; add_handler / remove_handler are operations
+        out += [('R.all', 7, (0,)), ('R.probe-rot', 'p1', (1,)),
+                ('R.base-pos', 'hb0', (0, 1))]
     else:
         raise ValueError(layout)
     return out
@@ -258,11 +369,12 @@ def check_stored(dim, prop, assigned, read, feat, clause):
                         f'{read!r}', **feat)
 
 
-def judge_calls(calls, listeners, inst, prop, read, feat, hits):
+def judge_calls(calls, listeners, inst, prop, read, feat, hits, removed=()):
     """The ledger of one assignment against the statement.
 
     ``listeners``: (label, bits, instances).  ``read``: what ``t.prop``
-    returned right after the assignment."""
+    returned right after the assignment.  ``removed``: labels of listeners
+    that were registered on ``inst`` and removed from it."""
     event = EVENT_OF[prop]
     vector = not is_number(read)
     per = collections.defaultdict(list)
@@ -270,7 +382,8 @@ def judge_calls(calls, listeners, inst, prop, read, feat, hits):
         per[label].append((ev, args, kwargs))
     for label, bits, insts in listeners:
         mine = per.pop(label, [])
-        wants = inst in insts and event in LISTENER[bits].events
+        subscribed = events_of(bits)
+        wants = inst in insts and event in subscribed
         foreign = [c for c in mine if c[0] != event]
         if foreign:
             raise Violation(
@@ -279,18 +392,23 @@ def judge_calls(calls, listeners, inst, prop, read, feat, hits):
                 f'{foreign[0][0]}', kind='other_event', **feat)
         if not wants:
             if mine:
-                kind = ('other_instance' if inst not in insts
+                kind = ('removed' if label in removed else
+                        'other_instance' if inst not in insts
                         else 'not_subscribed')
                 raise Violation(
                     'no_cross_talk',
                     f'{prop} assigned on t{inst}: listener {label} '
-                    f'(registered on {list(insts)} for '
-                    f'{sorted(LISTENER[bits].events)}) was called',
+                    f'({"removed from this transform; " if label in removed else ""}'
+                    f'registered on {list(insts)} for '
+                    f'{sorted(subscribed)}) was called',
                     kind=kind, **feat)
-            if inst not in insts and event in LISTENER[bits].events:
+            if inst not in insts and event in subscribed:
                 hits['other_instance_listener'] += 1
             elif inst in insts:
                 hits['other_event_listener'] += 1
+                if not isinstance(bits, int):
+                    hits['hierarchy_base_stands_by' if bits.startswith('hb')
+                         else 'instance_events_probe_stands_by'] += 1
             continue
         if len(mine) != 1:
             raise Violation(
@@ -316,6 +434,10 @@ def judge_calls(calls, listeners, inst, prop, read, feat, hits):
                 f'{prop} assigned on t{inst}: listener {label} was told '
                 f'{got!r} but t{inst}.{prop} reads {read!r}', **feat)
         hits['listener_notified'] += 1
+        if not isinstance(bits, int):
+            hits['hierarchy_subclass_notified' if bits.startswith('hs') else
+                 'hierarchy_base_notified' if bits.startswith('hb') else
+                 'instance_events_probe_notified'] += 1
     if per:
         raise Violation('no_cross_talk',
                         f'calls on unknown listeners {sorted(per)}',
@@ -325,7 +447,7 @@ def judge_calls(calls, listeners, inst, prop, read, feat, hits):
 def shortcut_hits(dim, prop, idx, listeners, inst, hits):
     event = EVENT_OF[prop]
     n = sum(1 for _, bits, insts in listeners
-            if inst in insts and event in LISTENER[bits].events)
+            if inst in insts and event in events_of(bits))
     if n == 0:
         hits['no_listener_for_event'] += 1
     if n >= 2:
@@ -399,11 +521,18 @@ class TransformDriver:
 
     def params(self):
         return dict(dim=self.dim, layout=self.layout,
-                    listeners=[(lab, f'{bits:03b}', list(insts)) for
+                    listeners=[(lab, kind_text(bits), list(insts)) for
                                lab, bits, insts in
                                layout_listeners(self.layout)],
                     rotations=list(ROTATIONS),
-                    vectors=[list(v) for v in VECTORS[self.dim]])
+                    vectors=[list(v) for v in VECTORS[self.dim]],
+                    **({'registration_ops': 'add_handler (also of a '
+                        'registered listener) and remove_handler (of a '
+                        'registered listener) of every listener on either '
+                        'transform',
+                        'assignment_menu': {k: list(v) for k, v in
+                                            REREG_MENU.items()}}
+                       if self.layout == 'rereg' else {}))
 
     def initial(self):
         ctx = Ctx()
@@ -412,11 +541,15 @@ class TransformDriver:
         ctx.t = [TRANSFORM[self.dim](), TRANSFORM[self.dim]()]
         ctx.listeners = layout_listeners(self.layout)
         ctx.objs = []
-        for label, bits, insts in ctx.listeners:
-            lis = LISTENER[bits](label, ctx.log)
+        # reg[i]: indices of the listeners registered on transform i
+        ctx.reg = [set(), set()]
+        ctx.removed = set()     # (i, k) removed on this path (not in the key)
+        for k, (label, bits, insts) in enumerate(ctx.listeners):
+            lis = make_listener(bits, label, ctx.log)
             ctx.objs.append(lis)
             for i in insts:
                 ctx.t[i].add_handler(lis)
+                ctx.reg[i].add(k)
         # model: what every property must read; ('default', first read) or
         # ('is', assigned object) or ('num', float)
         ctx.model = [{p: ('default', getattr(t, p)) for p in PROPS}
@@ -426,18 +559,59 @@ class TransformDriver:
 
     def ops(self, ctx):
         ops = []
+        rereg = self.layout == 'rereg'
         for i in (0, 1):
             for prop in PROPS:
                 n = len(ROTATIONS) if prop == 'rotation' else 3
-                for idx in range(n):
+                for idx in (REREG_MENU[prop] if rereg else range(n)):
                     ops.append(('set', i, prop, idx))
+        if rereg:
+            for i in (0, 1):
+                for k in range(len(ctx.listeners)):
+                    ops.append(('add', i, k))       # also when registered
+                    if k in ctx.reg[i]:
+                        ops.append(('remove', i, k))
         return ops
+
+    def current(self, ctx):
+        """(label, kind, instances it is registered on NOW)."""
+        return [(label, bits, tuple(i for i in (0, 1) if k in ctx.reg[i]))
+                for k, (label, bits, _) in enumerate(ctx.listeners)]
+
+    def apply_registration(self, ctx, op):
+        verb, i, k = op
+        feat = dict(dim=self.dim, op=verb)
+        lis = ctx.objs[k]
+        t = ctx.t[i]
+        del ctx.log[:]
+        try:
+            (t.add_handler if verb == 'add' else t.remove_handler)(lis)
+        except Exception as exc:
+            raise Violation('registration_raises',
+                            f't{i}.{verb}_handler({lis!r}) raised '
+                            f'{type(exc).__name__}: {exc}', **feat)
+        if ctx.log:
+            raise Violation('no_cross_talk', f't{i}.{verb}_handler({lis!r}) '
+                            f'notified listeners', kind='registration',
+                            **feat)
+        if verb == 'add':
+            ctx.hits['double_registration' if k in ctx.reg[i]
+                     else 'listener_registered'] += 1
+            ctx.reg[i].add(k)
+            ctx.removed.discard((i, k))
+        else:
+            ctx.reg[i].discard(k)
+            ctx.removed.add((i, k))
+            ctx.hits['listener_removed'] += 1
+        ctx.steps += 1
 
     def feat(self, prop, idx):
         return dict(dim=self.dim, prop=prop,
                     band=rotation_band(self.dim, prop, idx))
 
     def apply(self, ctx, op):
+        if op[0] in ('add', 'remove'):
+            return self.apply_registration(ctx, op)
         _, i, prop, idx = op
         dim = self.dim
         feat = self.feat(prop, idx)
@@ -457,8 +631,16 @@ class TransformDriver:
             raise Violation('no_cross_talk', f'reading t{i}.{prop} notified '
                             f'listeners', kind='read', **feat)
         check_stored(dim, prop, value, read, feat, 'stores_assigned_value')
-        judge_calls(calls, ctx.listeners, i, prop, read, feat, ctx.hits)
-        shortcut_hits(dim, prop, idx, ctx.listeners, i, ctx.hits)
+        listeners = self.current(ctx)
+        judge_calls(calls, listeners, i, prop, read, feat, ctx.hits,
+                    removed=[ctx.listeners[k][0] for j, k in ctx.removed
+                             if j == i])
+        shortcut_hits(dim, prop, idx, listeners, i, ctx.hits)
+        if self.layout == 'rereg':
+            event = EVENT_OF[prop]
+            for k, (_, bits, insts) in enumerate(ctx.listeners):
+                if event in events_of(bits) and k not in ctx.reg[i]:
+                    ctx.hits['unregistered_listener_stands_by'] += 1
         old = ctx.model[i][prop]
         if dim == 2 and prop == 'rotation':
             ctx.model[i][prop] = ('num', read)
@@ -511,7 +693,8 @@ class TransformDriver:
 
         model = tuple((p, how, repr(v)) for m in ctx.model
                       for p, (how, v) in sorted(m.items()))
-        return (model, canon(ctx.t, namer=namer))
+        reg = tuple(tuple(sorted(r)) for r in ctx.reg)
+        return (model, reg, canon(ctx.t, namer=namer))
 
 
 # -- E3: listener subsets x single assignment -------------------------------
@@ -532,7 +715,22 @@ def subset_cases(tier=None):
     return cases
 
 
+def class_cases(tier=None):
+    """Like subset_cases, the two listeners drawn from the class shapes
+    (hierarchy base / subclass instances, per-instance probes; None = not
+    registered), in both registration orders."""
+    kinds = (None,) + CLASS_KINDS
+    cases = []
+    for dim in (2, 3):
+        for a in kinds:
+            for b in kinds:
+                for prop, idx in single_assignments(dim):
+                    cases.append((dim, a, b, prop, idx))
+    return cases
+
+
 def run_subset_case(case):
+    """a, b: listener kinds (bits or class-shape names; 0 / None = absent)."""
     dim, a, b, prop, idx = case
     hits = collections.Counter()
     log = []
@@ -542,7 +740,7 @@ def run_subset_case(case):
     keep = []
     for label, bits in (('A', a), ('B', b)):
         if bits:
-            lis = LISTENER[bits](label, log)
+            lis = make_listener(bits, label, log)
             keep.append(lis)
             t.add_handler(lis)
             listeners.append((label, bits, (0,)))
@@ -581,7 +779,127 @@ def run_subset_case(case):
         hits['same_subset_twice'] += 1
     if not a and not b:
         hits['no_listener_at_all'] += 1
+    if isinstance(a, str) and isinstance(b, str):
+        if a[0] == b[0] == 'p' and a != b:
+            hits['two_probes_of_one_class_different_events'] += 1
+        if {a[:2], b[:2]} == {'hb', 'hs'}:
+            hits['base_and_subclass_instances_together'] += 1
+    if isinstance(a, str) and a.startswith('hb') and not b:
+        hits['base_instance_alone'] += 1
     return {'calls': 2 + len(calls), 'hits': dict(hits), 'key': repr(case)}
+
+
+# -- E3: registration histories ------------------------------------------------
+# Every sequence of add_handler / remove_handler / assignment operations on
+# two transforms and two listener objects, not merged on states: registering a
+# listener that is registered leaves ONE listener, a removed listener hears
+# nothing, whatever happened before.
+REG_LISTENERS = (('A', 7), ('B', 'p1'))     # all events; rotation probe
+REG_MAX_LEN = {'quick': 4, 'thorough': 5}
+
+
+def registration_ops():
+    ops = [(verb, i, k) for verb in ('add', 'remove') for i in (0, 1)
+           for k in range(len(REG_LISTENERS))]
+    ops += [('set', i, prop) for i in (0, 1) for prop in PROPS]
+    return ops
+
+
+def registration_cases(tier='thorough'):
+    """(dim, sequence); every sequence of 1..n operations that ends with an
+    assignment (a trailing registration would not be observed)."""
+    ops = registration_ops()
+    sets = [op for op in ops if op[0] == 'set']
+    cases = []
+    for dim in (2, 3):
+        for n in range(1, REG_MAX_LEN[tier] + 1):       # shortest first
+            for head in itertools.product(ops, repeat=n - 1):
+                for last in sets:
+                    cases.append((dim, head + (last,)))
+    return cases
+
+
+def run_registration_case(case):
+    dim, seq = case
+    hits = collections.Counter()
+    log = []
+    ts = [TRANSFORM[dim](), TRANSFORM[dim]()]
+    objs = [make_listener(kind, label, log) for label, kind in REG_LISTENERS]
+    reg = [set(), set()]
+    adds = collections.Counter()    # (i, k): add_handler calls since removal
+    removed = {}                    # (i, k): adds it had when it was removed
+    n_calls = 0
+    for op in seq:
+        verb, i = op[0], op[1]
+        t = ts[i]
+        if verb in ('add', 'remove'):
+            k = op[2]
+            feat = dict(dim=dim, op=verb)
+            del log[:]
+            try:
+                (t.add_handler if verb == 'add' else t.remove_handler)(objs[k])
+            except Exception as exc:
+                if verb == 'remove' and k not in reg[i]:
+                    # removing a listener that is not registered: the
+                    # statement is silent, an exception is accepted
+                    hits['remove_unregistered_raised'] += 1
+                    continue
+                raise Violation('registration_raises',
+                                f't{i}.{verb}_handler({objs[k]!r}) raised '
+                                f'{type(exc).__name__}: {exc}', **feat)
+            if log:
+                raise Violation('no_cross_talk',
+                                f't{i}.{verb}_handler({objs[k]!r}) notified '
+                                f'listeners', kind='registration', **feat)
+            if verb == 'add':
+                hits['double_registration' if k in reg[i]
+                     else 'listener_registered'] += 1
+                if (i, k) in removed:
+                    hits['registered_again_after_removal'] += 1
+                    del removed[(i, k)]
+                reg[i].add(k)
+                adds[(i, k)] += 1
+            else:
+                if k in reg[i]:
+                    removed[(i, k)] = adds[(i, k)]
+                    hits['listener_removed'] += 1
+                else:
+                    hits['remove_unregistered'] += 1
+                reg[i].discard(k)
+                adds[(i, k)] = 0
+            n_calls += 1
+            continue
+        prop = op[2]
+        idx = REREG_MENU[prop][0]
+        feat = dict(dim=dim, prop=prop, band=rotation_band(dim, prop, idx))
+        value = make_value(dim, prop, idx)
+        del log[:]
+        try:
+            setattr(t, prop, value)
+        except Exception as exc:
+            raise Violation('setter_raises', f't{i}.{prop} = {value!r} raised '
+                            f'{type(exc).__name__}: {exc}', **feat)
+        calls = list(log)
+        read = getattr(t, prop)
+        check_stored(dim, prop, value, read, feat, 'stores_assigned_value')
+        listeners = [(label, kind, tuple(j for j in (0, 1) if k in reg[j]))
+                     for k, (label, kind) in enumerate(REG_LISTENERS)]
+        judge_calls(calls, listeners, i, prop, read, feat, hits,
+                    removed=[REG_LISTENERS[k][0] for j, k in removed
+                             if j == i])
+        event = EVENT_OF[prop]
+        for k, (label, kind) in enumerate(REG_LISTENERS):
+            if event not in events_of(kind):
+                continue
+            if k in reg[i] and adds[(i, k)] >= 2:
+                hits['assignment_after_double_registration'] += 1
+            if (i, k) in removed:
+                hits['assignment_after_removal'] += 1
+                if removed[(i, k)] >= 2:
+                    hits['assignment_after_removal_of_double_registration'] \
+                        += 1
+        n_calls += 2 + len(calls)
+    return {'calls': n_calls, 'hits': dict(hits), 'key': repr(case)}
 
 
 # -- E3: re-entrant listeners -------------------------------------------------
@@ -605,7 +923,7 @@ def judge_reentrant(calls, listeners, fixer, prop, read, n_assign, feat,
         per[label].append((ev, args, kwargs))
     for label, bits, insts in listeners:
         mine = per.pop(label, [])
-        wants = 0 in insts and event in LISTENER[bits].events
+        wants = 0 in insts and event in events_of(bits)
         foreign = [c for c in mine if c[0] != event]
         if foreign:
             raise Violation(
@@ -621,7 +939,7 @@ def judge_reentrant(calls, listeners, fixer, prop, read, n_assign, feat,
                     'no_cross_talk',
                     f'{prop} assigned on t0 (and corrected from a '
                     f'callback): listener {label} (registered on '
-                    f'{list(insts)} for {sorted(LISTENER[bits].events)}) '
+                    f'{list(insts)} for {sorted(events_of(bits))}) '
                     f'was called', kind=kind, **feat)
             continue
         if len(mine) != n_assign:
@@ -855,11 +1173,17 @@ def run_constructor_case(case):
 # -- entry points -----------------------------------------------------------
 def drivers(tier):
     d = {}
-    layouts = ('subsets', 'subsets-none', 'dup-shared')
+    layouts = ('subsets', 'subsets-none', 'dup-shared', 'class-shapes',
+               'rereg')
     for dim in (2, 3):
         for layout in layouts:
             drv = TransformDriver(dim, layout)
-            if tier == 'quick':
+            if layout == 'rereg' and tier != 'quick':
+                # one value per property: small enough to close (depth 13)
+                kw = dict(max_states=400000, time_budget=600)
+            elif layout == 'rereg':
+                kw = dict(max_depth=4)
+            elif tier == 'quick':
                 kw = dict(max_depth=3)
             elif layout == 'dup-shared':
                 # fewest listeners = cheapest canonical key: to fixpoint
@@ -872,6 +1196,8 @@ def drivers(tier):
 
 E3_PARTS = {
     'listener-subsets': (run_subset_case, subset_cases),
+    'listener-classes': (run_subset_case, class_cases),
+    'registration-histories': (run_registration_case, registration_cases),
     'constructor': (run_constructor_case, constructor_cases),
     'reentrant': (run_reentrant_case, reentrant_cases),
 }
@@ -893,6 +1219,19 @@ def run(tier, rep):
         'one instance returns must not be visible on what another instance '
         'returns; two instances returning the same immutable object would '
         'be counted as information only',
+        'a listener of an event is an object registered with add_handler '
+        'whose __events__ (a class attribute written by event_handler, '
+        'composed with inherited subscriptions as the decorator documents '
+        'and tests/test_events.py pins, or an instance attribute - the '
+        'EventHandler protocol only asks for the field) names that event; '
+        'registering the same object again leaves one listener; after '
+        'remove_handler it is no listener.  remove_handler of an object '
+        'that is not registered may raise or not (statement silent) and is '
+        'only generated in part registration-histories',
+        'listener classes are created at import, bases before subclasses; '
+        'process-wide caches inside desper that depend on which listener '
+        'was registered first see the enumeration order of the run (every '
+        'worker is forked after the classes exist)',
         'dispatch_enabled = False (queued notifications) belongs to C04 and '
         'is outside the alphabet; listeners have no side effects, except '
         'the correcting listener of part "reentrant"',
@@ -913,8 +1252,9 @@ def run(tier, rep):
         'notification).  One correcting listener per transform, one '
         'correction per outer assignment.',
         'quick: histories up to depth 3; thorough: depth 4 for the two '
-        'subset layouts (depth caps reported, so `exhaustive` is false) and '
-        'the fixpoint of the merged state space for the dup-shared layout',
+        'subset layouts and class-shapes (depth caps reported, so '
+        '`exhaustive` is false) and the fixpoint of the merged state space '
+        'for the dup-shared and rereg layouts (quick: rereg to depth 4)',
     ]
     rep.require_hits(rotation_out_of_range=1, negative_rotation=1,
                      other_instance_listener=1, other_event_listener=1,
@@ -924,12 +1264,33 @@ def run(tier, rep):
                      reentrant_assignment=1, reentrant_with_passive_listener=1,
                      reentrant_plain_tuple_correction=1,
                      reentrant_after_earlier_assignment=1,
+                     hierarchy_base_notified=1, hierarchy_base_stands_by=1,
+                     hierarchy_subclass_notified=1,
+                     instance_events_probe_notified=1,
+                     instance_events_probe_stands_by=1,
+                     base_instance_alone=1,
+                     base_and_subclass_instances_together=1,
+                     two_probes_of_one_class_different_events=1,
+                     double_registration=1, listener_removed=1,
+                     unregistered_listener_stands_by=1,
+                     assignment_after_double_registration=1,
+                     assignment_after_removal=1,
+                     assignment_after_removal_of_double_registration=1,
+                     registered_again_after_removal=1,
                      **{f'reentrant_{d}d_{p}': 1 for d in (2, 3)
                         for p in PROPS})
     for name, (driver, kw) in drivers(tier).items():
         kernel.explore(driver, rep, part=name, params=driver.params(), **kw)
     for part, (runner, cases) in E3_PARTS.items():
         params = dict(rotations=list(ROTATIONS))
+        if part == 'listener-classes':
+            params.update(kinds=list(CLASS_KINDS) + [None])
+        if part == 'registration-histories':
+            params.update(
+                max_sequence_length=REG_MAX_LEN[tier],
+                listeners=[[lab, kind_text(k)] for lab, k in REG_LISTENERS],
+                operations=[list(op) for op in registration_ops()],
+                values={k: list(v) for k, v in REREG_MENU.items()})
         if part == 'reentrant':
             params.update(
                 max_sequence_length=REENTRANT_MAX_LEN[tier],
